@@ -304,9 +304,10 @@ theorem C28_error_closes (s : Server) (c : Nat) (pk : InPk) (b : Bool) (i : Nat)
 
 /-- … and a served connection gets its required response: PINGREQ → PINGRESP (the other request types:
     `Props/C07.lean`, handler by handler) -/
-theorem C28_served_ping (s : Server) (i : Nat) (hopen : (getObj s i).isOpen = true) :
+theorem C28_served_ping (s : Server) (i : Nat) (hopen : (getObj s i).isOpen = true)
+    (hpg : (getObj s i).peerGone = false) :
     ∃ rest, (receivePacket s i .pingreq).2.1 = .wrote (getObj s i).conn .pingresp :: rest :=
-  C07_pingreq s i hopen
+  C07_pingreq s i hopen hpg
 
 /-- **C28: isolation** — one inbound packet on connection `c` (object `i`) does not create or remove a
     client object, does not touch the connection table, and leaves every OTHER client object `j`
